@@ -1,4 +1,4 @@
-package main
+package vcli
 
 import (
 	"encoding/json"
